@@ -1089,7 +1089,7 @@ END:VTODO\n";
 		rc -= fdprintf("DURATION:%d\n", s) < 0;
 	}
 	with (unsigned int um = 0066U) {
-		if (t->t->umsk < 0777U) {
+		if (t->t->umsk <= 0777U) {
 			um = t->t->umsk;
 		}
 		rc -= fdprintf("X-ECHS-UMASK:0%o\n", um) < 0;
